@@ -37,6 +37,9 @@ def compile_files_history(steps: list) -> dict:
 
     root = tempfile.mkdtemp(prefix="verif_hist_")
     out = []
+    import audit
+    audit.import_all()
+    base = audit.snapshot()
 
     def run(c: Any, main: str) -> dict:
         p = os.path.join(root, main)
@@ -44,7 +47,8 @@ def compile_files_history(steps: list) -> dict:
             with open(p, encoding="utf-8") as fh:
                 src = fh.read()
             c.compile(src, p)
-            return {"ok": True, "ops": ops_from_impl(c.routine_ops)}
+            from core import sm_to_json
+            return {"ok": True, "ops": ops_from_impl(c.routine_ops), "macro_files": sorted({str(v[0]) for v in sm_to_json(c.source_map)["macros"]["map"].values()})}
         except BaseException as e:  # noqa
             if isinstance(e, (KeyboardInterrupt, SystemExit)):
                 raise
@@ -60,6 +64,7 @@ def compile_files_history(steps: list) -> dict:
                         fh.write(text)
             else:
                 out.append([run(reused, st[1]), run(ExplorerScriptSsbCompiler(PERF), st[1])])
-        return {"ok": True, "results": out}
+        del reused
+        return {"ok": True, "results": out, "residue": audit.residue(base)}
     finally:
         shutil.rmtree(root, ignore_errors=True)
